@@ -144,23 +144,41 @@ impl VectorSearchExec {
         let mut skipped = 0usize;
         let mut taken = 0usize;
 
+        // The provider names the columns it returns as ITS schema does, while
+        // `outputs[i].name` is the QUERY's output name, which may be an alias:
+        // `SELECT id AS x` has no provider column `x`, and `SELECT g AS id,
+        // id AS g` would silently swap the two columns. Look each output up
+        // by the provider column it was projected from (`projection[i]`).
+        let provider_schema = self.provider.as_ref().map(|p| p.schema());
+        let source_names: Vec<String> = self
+            .outputs
+            .iter()
+            .enumerate()
+            .map(|(i, field)| {
+                provider_schema
+                    .as_ref()
+                    .and_then(|s| self.projection.get(i).map(|&c| s.field(c).name().clone()))
+                    .unwrap_or_else(|| field.name.clone())
+            })
+            .collect();
+
         for batch in batches {
             if taken >= self.k {
                 break;
             }
             let in_schema = batch.schema();
             let mut columns: Vec<ArrayRef> = Vec::with_capacity(self.outputs.len());
-            for field in &self.outputs {
+            for (field, source) in self.outputs.iter().zip(&source_names) {
                 // Match by name: Lance returns the projected columns plus
                 // `_distance`, in its own order.
                 let idx = in_schema
                     .fields()
                     .iter()
-                    .position(|f| f.name().eq_ignore_ascii_case(&field.name))
+                    .position(|f| f.name().eq_ignore_ascii_case(source))
                     .ok_or_else(|| {
                         QueryError::Internal(format!(
                             "vector search result is missing column `{}`; got [{}]",
-                            field.name,
+                            source,
                             in_schema
                                 .fields()
                                 .iter()
